@@ -44,7 +44,9 @@
 //!   pre=<out>/<cy>/<log> (length of each path's content before the run, '-' absent) kept=<-|sinks whose content is byte for
 //!   byte what it was before the run> logref=<-|same|diff> (the log file equals
 //!   the log of the same command on fresh paths) stale=<-|sinks that still hold pre-state marker bytes> symc=<-|a/b/c/d> (files
-//!   below the tool's cache / tmp directory and the library's after the run) exp=<list>
+//!   below the tool's cache / tmp directory and the library's after the run) logc=<class> errc=<class> (what the log file / standard
+//!   error hold against the line main.rs logs for the library's failure: E empty | L exactly `ERROR <name> - Error reading|processing
+//!   dump: <err>` | L+ other lines, then that line | 1 one other `ERROR ..` line | C one `Error: ..` line | U clap's `error: ..` | ?) exp=<list>
 //!   sink = '-' (file absent) | n/a | <len>:<hash>:<names of the in-process renderings it equals, '+'-joined | none>
 //!          a name followed by '<' means: a proper non-empty prefix of that rendering; followed by '>': that whole rendering
 //!          and then further bytes; preceded by '>': further bytes and then that whole rendering
@@ -314,6 +316,7 @@ struct LibOut {
     class: String,                       // R read error, P process error, O ok, X panic
     cpu: String,                         // x86 | amd64 | arm64 | other | - (no system info)
     renderings: Vec<(String, Vec<u8>)>,  // name -> bytes
+    diag: String,                        // the message main.rs logs for this library failure ("" if none): `<name> - Error reading|processing dump: <err>`
 }
 
 /// where the in-process run takes symbols from (mirrors main.rs: URLs => http supplier, else paths => simple supplier)
@@ -330,8 +333,9 @@ fn lib_run(path: &Path, sym: &SymSrc, feat: u64, rfa_flag: bool, evil: bool) -> 
     let mut out = LibOut::default();
     let dump = match Minidump::read_path(path) {
         Ok(d) => d,
-        Err(_) => {
+        Err(e) => {
             out.class = "R".into();
+            out.diag = format!("{} - Error reading dump: {}", e.name(), e);
             return out;
         }
     };
@@ -395,8 +399,9 @@ fn lib_run(path: &Path, sym: &SymSrc, feat: u64, rfa_flag: bool, evil: bool) -> 
                 state.print_json(&mut v, true).expect("print_json pretty");
                 out.renderings.push((format!("JP{}", s), v));
             }
-            Err(_) => {
+            Err(e) => {
                 out.class = "P".into();
+                out.diag = format!("{} - Error processing dump: {}", e.name(), e);
                 break;
             }
         }
@@ -700,7 +705,7 @@ fn lib_get(st: &mut State, input: &str, in_path: &Path, src: &SymSrc, feat: u64,
     }
     let l = match std::panic::catch_unwind(std::panic::AssertUnwindSafe(|| lib_run(in_path, src, feat, rfa, evil))) {
         Ok(l) => l,
-        Err(_) => LibOut { class: "X".into(), cpu: "-".into(), renderings: vec![] },
+        Err(_) => LibOut { class: "X".into(), cpu: "-".into(), renderings: vec![], diag: String::new() },
     };
     if st.cache.len() > 64 {
         st.cache.clear();
@@ -742,6 +747,47 @@ fn sink_desc(bytes: &[u8], lib: &LibOut) -> String {
         names.push("none".into());
     }
     format!("{}:{}:{}", bytes.len(), fnv(bytes), names.join("+"))
+}
+
+/// what a diagnostic channel (standard error, the --log-file) holds, against the line main.rs logs for the library's failure:
+/// E empty | L exactly `ERROR <that message>` | L+ further lines and then that line | 1 one other `ERROR ..` line (main's own
+/// rejections) | C one `Error: ..` line (main's io error) | U clap's `error: ..` usage message | ? anything else
+fn diag_class(bytes: &[u8], lib: &LibOut) -> &'static str {
+    let mut text = String::new();
+    let raw = String::from_utf8_lossy(bytes);
+    let mut it = raw.chars().peekable();
+    while let Some(ch) = it.next() {
+        if ch == '\u{1b}' && it.peek() == Some(&'[') {
+            for c2 in it.by_ref() {
+                if c2.is_ascii_alphabetic() {
+                    break;
+                }
+            }
+        } else {
+            text.push(ch);
+        }
+    }
+    if text.is_empty() {
+        return "E";
+    }
+    let want = format!("ERROR {}\n", lib.diag);
+    if !lib.diag.is_empty() && text == want {
+        return "L";
+    }
+    if !lib.diag.is_empty() && text.ends_with(&want) {
+        return "L+";
+    }
+    let one_line = text.ends_with('\n') && text.matches('\n').count() == 1;
+    if one_line && text.starts_with("ERROR ") {
+        return "1";
+    }
+    if one_line && text.starts_with("Error: ") {
+        return "C";
+    }
+    if text.starts_with("error: ") {
+        return "U";
+    }
+    "?"
 }
 
 fn file_desc(cls: &str, p: &Path, lib: &LibOut) -> String {
@@ -1190,7 +1236,7 @@ fn run(st: &mut State, line: &str) -> String {
     // (b) the library, in-process
     let cacheable = src.urls.is_empty();
     let mut lib = if died {
-        LibOut { class: "?".into(), cpu: "-".into(), renderings: vec![] }
+        LibOut { class: "?".into(), cpu: "-".into(), renderings: vec![], diag: String::new() }
     } else {
         lib_get(st, input, &in_path, &src, feat, rfa, evil, cacheable)
     };
@@ -1247,10 +1293,18 @@ fn run(st: &mut State, line: &str) -> String {
         "u" | "d" | "r" | "xL" => "n/a".into(),
         _ => std::fs::metadata(&log_path).map(|m| m.len().to_string()).unwrap_or("-".into()),
     };
+    let logc = match log_cls {
+        "-" | "u" | "d" | "r" | "xL" => "-",
+        _ => match std::fs::read(&log_path) {
+            Ok(b) => diag_class(&b, &lib),
+            Err(_) => "-",
+        },
+    };
+    let errc = if died { "-" } else { diag_class(&tool.stderr, &lib) };
     let exp: Vec<String> = lib.renderings.iter().map(|(n, b)| format!("{}:{}:{}", n, b.len(), fnv(b))).collect();
     let _ = std::fs::remove_dir_all(&casedir);
     format!(
-        "lib={} cpu={} exit={} stdout={} out={} cy={} log={} stderr={} pre={} kept={} logref={} stale={} symc={} exp={}",
+        "lib={} cpu={} exit={} stdout={} out={} cy={} log={} stderr={} pre={} kept={} logref={} stale={} symc={} logc={} errc={} exp={}",
         lib.class,
         if lib.cpu.is_empty() { "-" } else { lib.cpu.as_str() },
         tool.exit,
@@ -1264,6 +1318,8 @@ fn run(st: &mut State, line: &str) -> String {
         logref,
         if stale.is_empty() { "-".to_string() } else { stale.join("+") },
         symc,
+        logc,
+        errc,
         if exp.is_empty() { "-".to_string() } else { exp.join(",") }
     )
 }
